@@ -123,6 +123,28 @@ pub fn rand_elem<E: FieldElement>(rng: &mut simcore::rng::Xoshiro) -> E {
     e
 }
 
+/// Multiplies the polynomial by (x - x_i) for `k` points x_i of the evaluation domain
+/// (offset * w^i), so that the committed function has exact zeros at known places: zeros never
+/// occur in pseudo-random data, and the interpolation / folding code treats them separately.
+/// Returns the indices of the roots.
+pub fn add_domain_roots<B: StarkField, E: FieldElement<BaseField = B>>(c: &mut Vec<E>, rng: &mut simcore::rng::Xoshiro, domain: usize, k: usize) -> Vec<usize> {
+    let w = B::get_root_of_unity(domain.ilog2());
+    let mut idx = vec![];
+    for _ in 0..k {
+        let i = rng.below(domain as u64) as usize;
+        idx.push(i);
+        let x = E::from(B::GENERATOR * w.exp((i as u64).into()));
+        // c(x) * (x - x_i)
+        let mut out = vec![E::ZERO; c.len() + 1];
+        for (j, cj) in c.iter().enumerate() {
+            out[j + 1] += *cj;
+            out[j] -= *cj * x;
+        }
+        *c = out;
+    }
+    idx
+}
+
 #[derive(Clone, Copy, PartialEq, Eq, Debug)]
 pub enum Which {
     Byzantine,
@@ -209,8 +231,18 @@ fn byzantine<B: SimField, E: FieldElement<BaseField = B>, H: ElementHasher<BaseF
         3 => {
             // control: genuinely low degree
             let deg = [n - 1, 0, n / 2][ch.index("fn.lowdeg", 3)];
-            let c: Vec<E> = (0..=deg).map(|_| rand_elem::<E>(&mut rng)).collect();
-            (coset_evaluate::<B, E>(&c, domain), false, format!("polynomial of degree {deg} (control)"))
+            // one control in three vanishes at up to 16 points of the domain (exact zeros inside
+            // the opened rows)
+            let k = if deg >= 1 && ch.chance("fn.roots?", 1, 3) { 1 + ch.index("fn.nroots", deg.min(16)) } else { 0 };
+            let mut c: Vec<E> = (0..=deg - k).map(|_| rand_elem::<E>(&mut rng)).collect();
+            if k > 0 {
+                if *c.last().unwrap() == E::ZERO {
+                    *c.last_mut().unwrap() = E::ONE;
+                }
+                add_domain_roots::<B, E>(&mut c, &mut rng, domain, k);
+                ctx.probe("control_with_exact_zeros_on_the_domain");
+            }
+            (coset_evaluate::<B, E>(&c, domain), false, format!("polynomial of degree {deg} with {k} roots on the domain (control)"))
         },
         _ => {
             // degree exactly one above the bound
@@ -309,6 +341,12 @@ fn byzantine<B: SimField, E: FieldElement<BaseField = B>, H: ElementHasher<BaseF
         wrong_claim = true;
         ctx.fault("byzantine_wrong_claimed_evaluation");
         ctx.probe(if later.is_empty() { "wrong_claim_at_a_first_of_row_position" } else { "wrong_claim_at_a_non_first_of_row_position" });
+    }
+    if layers > 0 {
+        let m = domain / cfg.folding;
+        if built.positions.iter().any(|p| (0..cfg.folding).any(|j| f0[p % m + j * m] == E::ZERO)) {
+            ctx.probe("exact_zero_inside_an_opened_row");
+        }
     }
     let sname0 = format!("{:?}", strategy).split(|c: char| !c.is_alphanumeric()).next().unwrap_or("").to_string();
     let reference = reference_verdict::<B, E, H>(&cfg, &built, &claimed, max_degree);
@@ -478,9 +516,17 @@ fn honest<B: SimField, E: FieldElement<BaseField = B>, H: ElementHasher<BaseFiel
         1 => 0,
         _ => ch.index("fn.deg", n),
     };
-    let mut c: Vec<E> = (0..=deg).map(|_| rand_elem::<E>(&mut rng)).collect();
-    if c[deg] == E::ZERO {
-        c[deg] = E::ONE;
+    // one polynomial in four vanishes at up to 16 points of the domain: exact zeros inside the
+    // rows that are committed, folded and opened
+    let k = if deg >= 1 && ch.chance("fn.roots?", 1, 4) { 1 + ch.index("fn.nroots", deg.min(16)) } else { 0 };
+    let mut c: Vec<E> = (0..=deg - k).map(|_| rand_elem::<E>(&mut rng)).collect();
+    if c[deg - k] == E::ZERO {
+        c[deg - k] = E::ONE;
+    }
+    let mut roots: Vec<usize> = vec![];
+    if k > 0 {
+        roots = add_domain_roots::<B, E>(&mut c, &mut rng, domain, k);
+        ctx.probe("polynomial_with_exact_zeros_on_the_domain");
     }
     let f0 = coset_evaluate::<B, E>(&c, domain);
     ctx.event_with("setup", simcore::rng::fnv1a(format!("{:?}{deg}", cfg).as_bytes()), || {
@@ -553,6 +599,15 @@ fn honest<B: SimField, E: FieldElement<BaseField = B>, H: ElementHasher<BaseFiel
         if E::ELEMENT_BYTES * cfg.folding * 255 > 65535 {
             ctx.probe("first_layer_opened_values_exceed_65535_bytes");
         }
+    }
+    if !big && !roots.is_empty() {
+        // the raw positions are the caller's: ask for (some of) the places where the function
+        // vanishes, or for their row mates, so that an exact zero sits inside an opened row
+        let m = domain / cfg.folding;
+        for r in roots.iter().take(1 + ch.index("roots.asked", roots.len().min(4))) {
+            positions.push(if ch.chance("roots.mate?", 1, 2) { (*r + m) % domain } else { *r });
+        }
+        ctx.probe("exact_zero_inside_an_opened_row");
     }
     if ch.chance("dup.positions?", 1, 3) && !positions.is_empty() {
         let k = ch.index("dup.which", positions.len());
